@@ -937,6 +937,7 @@ pixman_image_fill_boxes (pixman_op_t           op,
             pixman_region32_t fill_region;
             int n_rects, j;
             pixman_box32_t *rects;
+            pixman_bool_t filled = TRUE;
 
             if (!pixman_region32_init_rects (&fill_region, boxes, n_boxes))
                 return FALSE;
@@ -960,13 +961,22 @@ pixman_image_fill_boxes (pixman_op_t           op,
             for (j = 0; j < n_rects; ++j)
             {
                 const pixman_box32_t *rect = &(rects[j]);
-                pixman_fill (dest->bits.bits, dest->bits.rowstride, PIXMAN_FORMAT_BPP (dest->bits.format),
-                             rect->x1, rect->y1, rect->x2 - rect->x1, rect->y2 - rect->y1,
-                             pixel);
+                if (!pixman_fill (dest->bits.bits, dest->bits.rowstride, PIXMAN_FORMAT_BPP (dest->bits.format),
+                                  rect->x1, rect->y1, rect->x2 - rect->x1, rect->y2 - rect->y1,
+                                  pixel))
+                {
+                    /* No implementation can fill this depth: composite
+                     * instead (SRC is idempotent, so boxes that were
+                     * already filled may be drawn again).
+                     */
+                    filled = FALSE;
+                    break;
+                }
             }
 
             pixman_region32_fini (&fill_region);
-            return TRUE;
+            if (filled)
+                return TRUE;
         }
     }
 
